@@ -103,7 +103,7 @@ Notation "x <- m ;; k" := (hbind m (fun x => k)) (at level 61, m at next level, 
 Notation "m ;;; k" := (hbind m (fun _ => k)) (at level 61, right associativity) : hm_scope.
 Open Scope hm_scope.
 
-Fixpoint upd {A} (n : nat) (x : A) (l : list A) : list A :=
+Fixpoint upd {A} (n : nat) (x : A) (l : list A) {struct l} : list A :=
   match l with
   | [] => []
   | y :: t => match n with O => x :: t | S m => y :: upd m x t end
@@ -139,9 +139,10 @@ Definition h_clone1 (tv : tval) : H unit :=
 Fixpoint h_clone_all (l : list tval) : H unit :=
   match l with [] => hret tt | tv :: r => h_clone1 tv ;;; h_clone_all r end.
 
-(* ValueBlockRc::encode : fresh block, count 1, the payload takes ownership of [kids] *)
-Definition h_alloc (t : tag) (sh : shape) (kids : list tval) : H tval := fun h =>
-  Ok ((kind_of_tag t, VPtr (length h)), h ++ [mkB t 1 sh kids false]).
+(* ValueBlockRc::encode : fresh block, count 1, the payload takes ownership of [kids].  The
+   handle is returned at static kind [k] when the tag allows it (Thunk(NickelValue::thunk(..))). *)
+Definition h_alloc (k : kind) (t : tag) (sh : shape) (kids : list tval) : H tval := fun h =>
+  Ok ((if tag_ok k t then k else kind_of_tag t, VPtr (length h)), h ++ [mkB t 1 sh kids false]).
 
 (* Drop for NickelValue / ValueBlockRc (dec_ref_count; at zero drop_slow = drop_in_place of the
    payload, i.e. drop of every handle it owns, then dealloc), as a worklist *)
@@ -174,33 +175,9 @@ Definition h_drop (l : list tval) : H unit := fun h =>
   | Overflow => Overflow
   end.
 
-(* borrow of the block behind a handle *)
+(* borrow of the block behind a handle (used for control flow only) *)
 Definition h_read (tv : tval) : H (option block) :=
   match snd tv with VInl _ => hret None | VPtr a => b <- h_get a ;; hret (Some b) end.
-
-(* lens.rs with_content, unique branch: ManuallyDrop(value); ptr::read(content); dealloc — the
-   block is released WITHOUT running the destructor of the payload, whose handles now belong to
-   the caller.  Only legal when the count is 1 (the code tests ref_count == 1 first). *)
-Definition h_free_shallow (tv : tval) : H (list tval) :=
-  match snd tv with
-  | VInl _ => hret []
-  | VPtr a =>
-    b <- h_get a ;;
-    if N.eqb (b_rc b) 1 then h_set a (freed_block b) ;;; hret (b_kids b)
-    else hfail UniqueAccessWhileShared
-  end.
-
-(* write through a handle: replace shape and kids, the old kids are handed back to the caller.
-   [need_unique] = the write goes through a &mut obtained from decode_mut_unchecked (must be the
-   only handle); false = through the RefCell of a thunk (shared mutation is the point). *)
-Definition h_write (need_unique : bool) (tv : tval) (sh : shape) (kids : list tval) : H (list tval) :=
-  match snd tv with
-  | VInl _ => hret kids
-  | VPtr a =>
-    b <- h_get a ;;
-    if need_unique && negb (N.eqb (b_rc b) 1) then hfail UniqueAccessWhileShared
-    else h_set a (mkB (b_tag b) (b_rc b) sh kids false) ;;; hret (b_kids b)
-  end.
 
 (* ValueBlockRc::make_unique / content_make_mut::make_mut / Rc::make_mut: count 1 -> in place;
    otherwise strong_clone (clone of the payload: every kid +1, fresh block with count 1) and the
@@ -213,9 +190,9 @@ Definition h_make_unique (tv : tval) : H tval :=
     if N.eqb (b_rc b) 1 then hret tv
     else
       h_clone_all (b_kids b) ;;;
-      tv' <- h_alloc (b_tag b) (b_shape b) (b_kids b) ;;
+      tv' <- h_alloc (fst tv) (b_tag b) (b_shape b) (b_kids b) ;;
       h_drop [tv] ;;;
-      hret (fst tv, snd tv')
+      hret tv'
   end.
 
 (* ValueBlockRc::strong_clone on a borrowed handle *)
@@ -225,19 +202,73 @@ Definition h_strong_clone (tv : tval) : H tval :=
   | VPtr a =>
     b <- h_get a ;;
     h_clone_all (b_kids b) ;;;
-    tv' <- h_alloc (b_tag b) (b_shape b) (b_kids b) ;;
-    hret (fst tv, snd tv')
+    h_alloc (fst tv) (b_tag b) (b_shape b) (b_kids b)
   end.
 
-(* lens.rs with_content / extract_or_clone, also Rc::unwrap_or_clone: consumes the handle and
-   returns the owned payload *)
-Definition h_unwrap_or_clone (tv : tval) : H (shape * list tval) :=
+(* how a write reaches the payload:
+   WCow      content_make_mut / make_mut: make the block unique first (copy-on-write)
+   WIfUnique content_mut / try_get_mut: only if the count is 1, otherwise nothing happens
+   WShared   through the RefCell of a thunk: shared mutation is the point *)
+Inductive wmode := WCow | WIfUnique | WShared.
+
+(* an edit: from the current shape and kids, the new shape and kids and the handles that leave
+   the block *)
+Definition editf := shape -> list tval -> (shape * list tval) * list tval.
+
+(* One write.  The handle [tv] is owned by the caller and is given back (it is a new one after a
+   copy-on-write).  [None]: nothing was written (inline value, or WIfUnique on a shared block).
+   A write through &mut (WCow, WIfUnique) re-checks that the count is 1: the error state that a
+   missing / wrong check in the code would be. *)
+Definition h_modify (mode : wmode) (tv : tval) (f : editf) : H (tval * option (list tval)) :=
+  tv' <- (match mode with WCow => h_make_unique tv | _ => hret tv end) ;;
+  match snd tv' with
+  | VInl _ => hret (tv', None)
+  | VPtr a =>
+    b <- h_get a ;;
+    if (match mode with WIfUnique => negb (N.eqb (b_rc b) 1) | _ => false end) then hret (tv', None)
+    else if (match mode with WShared => false | _ => negb (N.eqb (b_rc b) 1) end) then hfail UniqueAccessWhileShared
+    else
+      let r := f (b_shape b) (b_kids b) in
+      h_set a (mkB (b_tag b) (b_rc b) (fst (fst r)) (snd (fst r)) false) ;;;
+      hret (tv', Some (snd r))
+  end.
+
+(* lens.rs with_content (extract_or_clone, Thunk::into_closure) and Rc::unwrap_or_clone /
+   Rc::try_unwrap: consumes the handle.  Count 1: ManuallyDrop(value); ptr::read(content);
+   dealloc — the block is released WITHOUT running the destructor of the payload, whose handles
+   now all belong to the caller (result flag true).  Otherwise the part [sel] of the payload is
+   cloned and the handle is dropped. *)
+Definition h_take_or_clone (tv : tval) (sel : shape -> list tval -> list tval) : H (shape * bool * list tval) :=
+  match snd tv with
+  | VInl _ => hret (SData 0, true, [])
+  | VPtr a =>
+    b <- h_get a ;;
+    if N.eqb (b_rc b) 1 then h_set a (freed_block b) ;;; hret (b_shape b, true, b_kids b)
+    else
+      let l := sel (b_shape b) (b_kids b) in
+      h_clone_all l ;;; h_drop [tv] ;;; hret (b_shape b, false, l)
+  end.
+
+(* clone of a part of the payload through a borrowed handle (Thunk::get_owned, Closure::clone) *)
+Definition h_clone_kids (tv : tval) (sel : shape -> list tval -> list tval) : H (shape * list tval) :=
   match snd tv with
   | VInl _ => hret (SData 0, [])
   | VPtr a =>
     b <- h_get a ;;
-    if N.eqb (b_rc b) 1 then kids <- h_free_shallow tv ;; hret (b_shape b, kids)
-    else h_clone_all (b_kids b) ;;; h_drop [tv] ;;; hret (b_shape b, b_kids b)
+    let l := sel (b_shape b) (b_kids b) in
+    h_clone_all l ;;; hret (b_shape b, l)
+  end.
+
+(* same, one level down: the payload of the first kid (Closure::clone(orig) of a revertible thunk) *)
+Definition h_clone_grandkids (tv : tval) : H (list tval) :=
+  match snd tv with
+  | VInl _ => hret []
+  | VPtr a =>
+    b <- h_get a ;;
+    match b_kids b with
+    | k :: _ => p <- h_clone_kids k (fun _ l => l) ;; hret (snd p)
+    | [] => hret []
+    end
   end.
 
 (* Thunk::data : as_thunk_data_unchecked, no tag test in the code.  The model makes the test
@@ -248,6 +279,14 @@ Definition h_thunk_data (tv : tval) : H block :=
     b <- h_get a ;;
     if tag_eqb (b_tag b) TThunk then hret b else hfail BadThunkDecode
   | _ => hfail BadThunkDecode
+  end.
+
+(* NickelValue::try_into_thunk / as_thunk / the Thunk arm of content(): checked conversion *)
+Definition h_retype_thunk (tv : tval) : H (tval * bool) :=
+  o <- h_read tv ;;
+  match o with
+  | Some b => if tag_eqb (b_tag b) TThunk then hret ((KThunk, snd tv), true) else hret (tv, false)
+  | None => hret (tv, false)
   end.
 
 (* ------------------------------------------------------------------ state level: root handles *)
@@ -275,9 +314,6 @@ Definition lift {A} (m : H A) : M A := fun st =>
 Definition root_vals (r : list (option tval)) : list tval :=
   flat_map (fun o => match o with Some tv => [tv] | None => [] end) r.
 
-Definition peek_root (s : nat) : M (option tval) := fun st =>
-  match nth_error (roots st) s with Some (Some tv) => Ok (Some tv, st) | _ => Ok (None, st) end.
-
 (* move the handle out of slot s (the slot becomes dead) *)
 Definition take_root (s : nat) : M (option tval) := fun st =>
   match nth_error (roots st) s with
@@ -290,8 +326,8 @@ Definition push_root (tv : tval) : M unit := fun st => Ok (tt, mkS (heap st) (ro
 Fixpoint push_roots (l : list tval) : M unit :=
   match l with [] => ret tt | tv :: r => push_root tv ;;~ push_roots r end.
 
-(* run [f] on the handle of slot s, in place (&mut self): the handle it returns goes back into
-   the same slot *)
+(* run [f] on the handle of slot s, in place (&self / &mut self): the handle it returns goes
+   back into the same slot *)
 Definition with_root {A} (s : nat) (f : tval -> H (tval * A)) (dflt : A) : M A := fun st =>
   match nth_error (roots st) s with
   | Some (Some tv) =>
@@ -301,6 +337,24 @@ Definition with_root {A} (s : nat) (f : tval -> H (tval * A)) (dflt : A) : M A :
     | Overflow => Overflow
     end
   | _ => Ok (dflt, st)
+  end.
+
+(* clones of the handles of some slots (Clone through a borrow of the root) *)
+Definition clone_root (s : nat) : M (list tval) := fun st =>
+  match nth_error (roots st) s with
+  | Some (Some tv) =>
+    match h_clone1 tv (heap st) with
+    | Ok (_, h') => Ok ([tv], mkS h' (roots st))
+    | Err e => Err e
+    | Overflow => Overflow
+    end
+  | _ => Ok ([], st)
+  end.
+
+Fixpoint clone_roots (ss : list nat) : M (list tval) :=
+  match ss with
+  | [] => ret []
+  | s :: r => l <~ clone_root s ;; l' <~ clone_roots r ;; ret (l ++ l')
   end.
 
 (* ------------------------------------------------------------------ operations of a history *)
@@ -355,8 +409,9 @@ Definition mclass_of (t : tag) : mclass :=
   | _ => CNone
   end.
 
-(* a root used as a NickelValue: Thunk converts with From<Thunk> *)
-Definition as_value (tv : tval) : tval := (KValue, snd tv).
+(* a handle used as a NickelValue: Thunk converts with From<Thunk> *)
+Definition as_value (tv : tval) : tval :=
+  match fst tv with KRc => tv | _ => (KValue, snd tv) end.
 
 Definition is_thunk_kind (tv : tval) : bool := match fst tv with KThunk => true | _ => false end.
 
@@ -379,15 +434,6 @@ Fixpoint take_roots (ss : list nat) : M (list tval) :=
     ret (match o with Some tv => tv :: l | None => l end)
   end.
 
-Fixpoint peek_roots (ss : list nat) : M (list tval) :=
-  match ss with
-  | [] => ret []
-  | s :: r =>
-    o <~ peek_root s ;;
-    l <~ peek_roots r ;;
-    ret (match o with Some tv => tv :: l | None => l end)
-  end.
-
 Definition guard (c : hstate -> bool) (m : M out) : M out := fun st => if c st then m st else Ok (OSkip, st).
 
 Definition opt_list {A} (o : option A) : list A := match o with Some x => [x] | None => [] end.
@@ -397,61 +443,66 @@ Fixpoint removelast_t (l : list tval) : list tval :=
 Fixpoint last_t (l : list tval) : option tval :=
   match l with [] => None | [x] => Some x | _ :: r => last_t r end.
 
-(* the mutation itself, on a handle known to be the only one ([tv] owned by the caller, [x] the
-   owned value to push if any); returns the handles that leave the block (to become new roots
-   when [keep], to be dropped otherwise) *)
-Definition h_mutate (tv : tval) (m : mutation) (x : option tval) : H (list tval) :=
+Definition all_kids : shape -> list tval -> list tval := fun _ l => l.
+
+(* The mutation, on the handle [tv] owned by the caller; [x] are the owned values to move in
+   (already at the kind of the position).  Returns the handle, whether the write happened, the
+   handles that become new roots and the handles to drop. *)
+Definition h_mutate (mode : wmode) (tv : tval) (m : mutation) (x : list tval)
+  : H (tval * (bool * list tval)) :=
   o <- h_read tv ;;
   match o with
-  | None => hret (opt_list x)
+  | None => hret (tv, (false, x))
   | Some b =>
-    match mclass_of (b_tag b), m, x with
-    | CLeaf, MutSet d, _ =>
-      _ <- h_write true tv (SData d) (b_kids b) ;; hret (opt_list x)
-    | CVar, MutPush _, Some v =>
-      _ <- h_write true tv (b_shape b) (b_kids b ++ [as_value v]) ;; hret []
-    | CVar, MutPop, _ =>
-      _ <- h_write true tv (b_shape b) (removelast_t (b_kids b)) ;;
-      hret (opt_list (last_t (b_kids b)) ++ opt_list x)
-    | COpt k, MutPush _, Some v =>
-      _ <- h_write true tv (b_shape b) [(k, snd v)] ;;
-      h_drop (b_kids b) ;;; hret []
-    | COpt _, MutPop, _ =>
-      _ <- h_write true tv (b_shape b) [] ;; hret (b_kids b ++ opt_list x)
-    | COne, MutPush _, Some v =>
-      _ <- h_write true tv (b_shape b) [as_value v] ;;
-      h_drop (b_kids b) ;;; hret []
-    | CArr, MutPush _, Some v =>
+    let fin (r : tval * option (list tval)) (keep : bool) : H (tval * (bool * list tval)) :=
+      match snd r with
+      | Some rel => if keep then hret (fst r, (true, rel)) else h_drop rel ;;; hret (fst r, (true, []))
+      | None => hret (fst r, (false, x))
+      end in
+    match mclass_of (b_tag b), m with
+    | CLeaf, MutSet d =>
+      r <- h_modify mode tv (fun _ kids => ((SData d, kids), x)) ;; fin r true
+    | CVar, MutPush _ =>
+      r <- h_modify mode tv (fun sh kids => ((sh, kids ++ x), [])) ;; fin r true
+    | CVar, MutPop =>
+      r <- h_modify mode tv (fun sh kids => ((sh, removelast_t kids), opt_list (last_t kids) ++ x)) ;; fin r true
+    | COpt _, MutPush _ | COne, MutPush _ =>
+      r <- h_modify mode tv (fun sh kids => ((sh, x), kids)) ;; fin r false
+    | COpt _, MutPop =>
+      r <- h_modify mode tv (fun sh kids => ((sh, []), kids ++ x)) ;; fin r true
+    | CArr, MutPush _ =>
       (* arr.array.push(v): Rc::make_mut on the leaf of the vector, then push *)
-      match b_kids b with
-      | [leaf] =>
-        _ <- h_write true tv (b_shape b) [] ;;
-        leaf' <- h_make_unique leaf ;;
-        ol <- h_read leaf' ;;
-        match ol with
-        | Some lb =>
-          _ <- h_write true leaf' (b_shape lb) (b_kids lb ++ [as_value v]) ;;
-          _ <- h_write true tv (b_shape b) [leaf'] ;; hret []
-        | None => _ <- h_write true tv (b_shape b) [leaf'] ;; hret [v]
+      r <- h_modify mode tv (fun sh kids => ((sh, []), kids)) ;;
+      match snd r with
+      | Some [leaf] =>
+        r2 <- h_modify WCow leaf (fun sh kids => ((sh, kids ++ x), [])) ;;
+        r3 <- h_modify mode (fst r) (fun sh kids => ((sh, kids ++ [fst r2]), [])) ;;
+        match snd r2, snd r3 with
+        | Some _, Some _ => hret (fst r3, (true, []))
+        | Some _, None => h_drop [fst r2] ;;; hret (fst r3, (true, []))
+        | None, Some _ => hret (fst r3, (true, x))
+        | None, None => h_drop [fst r2] ;;; hret (fst r3, (true, x))
         end
-      | _ => hret [v]
+      | Some l => r3 <- h_modify mode (fst r) (fun sh kids => ((sh, kids ++ l), [])) ;;
+                  match snd r3 with Some _ => hret (fst r3, (false, x)) | None => h_drop l ;;; hret (fst r3, (false, x)) end
+      | None => hret (fst r, (false, x))
       end
-    | CArr, MutPop, _ =>
-      match b_kids b with
-      | [leaf] =>
-        _ <- h_write true tv (b_shape b) [] ;;
-        leaf' <- h_make_unique leaf ;;
-        ol <- h_read leaf' ;;
-        match ol with
-        | Some lb =>
-          _ <- h_write true leaf' (b_shape lb) (removelast_t (b_kids lb)) ;;
-          _ <- h_write true tv (b_shape b) [leaf'] ;;
-          hret (opt_list (last_t (b_kids lb)) ++ opt_list x)
-        | None => _ <- h_write true tv (b_shape b) [leaf'] ;; hret (opt_list x)
+    | CArr, MutPop =>
+      r <- h_modify mode tv (fun sh kids => ((sh, []), kids)) ;;
+      match snd r with
+      | Some [leaf] =>
+        r2 <- h_modify WCow leaf (fun sh kids => ((sh, removelast_t kids), opt_list (last_t kids))) ;;
+        r3 <- h_modify mode (fst r) (fun sh kids => ((sh, kids ++ [fst r2]), [])) ;;
+        let popped := match snd r2 with Some p => p | None => [] end in
+        match snd r3 with
+        | Some _ => hret (fst r3, (true, popped ++ x))
+        | None => h_drop [fst r2] ;;; hret (fst r3, (true, popped ++ x))
         end
-      | _ => hret (opt_list x)
+      | Some l => r3 <- h_modify mode (fst r) (fun sh kids => ((sh, kids ++ l), [])) ;;
+                  match snd r3 with Some _ => hret (fst r3, (false, x)) | None => h_drop l ;;; hret (fst r3, (false, x)) end
+      | None => hret (fst r, (false, x))
       end
-    | _, _, _ => hret (opt_list x)
+    | _, _ => hret (tv, (false, x))
     end
   end.
 
@@ -476,6 +527,13 @@ Definition root_tag (s : nat) (st : hstate) : option tag :=
   | _ => None
   end.
 
+Definition root_rc (s : nat) (st : hstate) : N :=
+  match nth_error (roots st) s with
+  | Some (Some (_, VPtr a)) =>
+    match nth_error (heap st) a with Some b => b_rc b | None => 0 end
+  | _ => 0
+  end.
+
 Definition root_live (s : nat) (st : hstate) : bool :=
   match nth_error (roots st) s with Some (Some _) => true | _ => false end.
 
@@ -493,6 +551,10 @@ Definition mut_guard (s : nat) (m : mutation) (st : hstate) : bool :=
     mutation_ok (mclass_of t) m x
   end.
 
+(* the kind at which a pushed root enters a block of this tag *)
+Definition push_kind (t : option tag) (tv : tval) : tval :=
+  match t with Some TLabel => tv | _ => as_value tv end.
+
 (* closure part of the kids of a thunk block *)
 Definition closure_kids (sh : shape) (kids : list tval) : option (list tval) :=
   match sh with
@@ -500,6 +562,8 @@ Definition closure_kids (sh : shape) (kids : list tval) : option (list tval) :=
   | SRev _ _ true => Some (tl kids)
   | _ => None
   end.
+Definition closure_sel (sh : shape) (kids : list tval) : list tval :=
+  match closure_kids sh kids with Some ck => ck | None => [] end.
 
 Definition set_state (sh : shape) (s : tstate) : shape :=
   match sh with SStd _ l => SStd s l | SRev _ l c => SRev s l c | x => x end.
@@ -511,6 +575,14 @@ Definition get_locked (sh : shape) : bool :=
   match sh with SStd _ l => l | SRev _ l _ => l | _ => false end.
 Definition tstate_eqb (a b : tstate) : bool :=
   match a, b with Suspended, Suspended | Blackholed, Blackholed | Evaluated, Evaluated => true | _, _ => false end.
+Definition is_rev (sh : shape) : bool := match sh with SRev _ _ _ => true | _ => false end.
+
+(* an operation on the thunk of slot s through &self: [f] gets the handle and the (checked)
+   thunk data, gives back what becomes new roots *)
+Definition with_thunk (s : nat) (f : tval -> block -> H (out * list tval)) : M out :=
+  guard (root_is_thunk s)
+    (r <~ with_root s (fun tv => b <- h_thunk_data tv ;; r <- f tv b ;; hret (tv, r)) (OSkip, []) ;;
+     push_roots (snd r) ;;~ ret (fst r)).
 
 Definition step (o : op) : M out :=
   match o with
@@ -518,7 +590,7 @@ Definition step (o : op) : M out :=
 
   | ONewData t d =>
     match mclass_of t with
-    | CLeaf => tv <~ lift (h_alloc t (SData d) []) ;; push_root tv ;;~ ret ODone
+    | CLeaf => tv <~ lift (h_alloc KValue t (SData d) []) ;; push_root tv ;;~ ret ODone
     | _ => ret OSkip
     end
 
@@ -528,8 +600,8 @@ Definition step (o : op) : M out :=
        match kids with
        | [] => push_root (KValue, VInl IEmptyArray) ;;~ ret ODone
        | _ =>
-         leaf <~ lift (h_alloc TVecLeaf (SData 0) (map as_value kids)) ;;
-         tv <~ lift (h_alloc TArray (SData d) [leaf]) ;;
+         leaf <~ lift (h_alloc KRc TVecLeaf (SData 0) (map as_value kids)) ;;
+         tv <~ lift (h_alloc KValue TArray (SData d) [leaf]) ;;
          push_root tv ;;~ ret ODone
        end)
 
@@ -538,339 +610,256 @@ Definition step (o : op) : M out :=
       (kids <~ take_roots ss ;;
        match kids with
        | [] => push_root (KValue, VInl IEmptyRecord) ;;~ ret ODone
-       | _ => tv <~ lift (h_alloc TRecord (SData d) (map as_value kids)) ;; push_root tv ;;~ ret ODone
+       | _ => tv <~ lift (h_alloc KValue TRecord (SData d) (map as_value kids)) ;; push_root tv ;;~ ret ODone
        end)
 
   | ONewEnum d s =>
     guard (slots_ok false (opt_list s))
       (kids <~ take_roots (opt_list s) ;;
-       tv <~ lift (h_alloc TEnumVariant (SData d) (map as_value kids)) ;; push_root tv ;;~ ret ODone)
+       tv <~ lift (h_alloc KValue TEnumVariant (SData d) (map as_value kids)) ;; push_root tv ;;~ ret ODone)
 
   | ONewWrap t s =>
     match mclass_of t with
     | COne =>
       guard (slots_ok false [s])
         (kids <~ take_roots [s] ;;
-         tv <~ lift (h_alloc t (SData 0) (map as_value kids)) ;; push_root tv ;;~ ret ODone)
+         tv <~ lift (h_alloc KValue t (SData 0) (map as_value kids)) ;; push_root tv ;;~ ret ODone)
     | _ => ret OSkip
     end
 
   | ONewLabel d s =>
     guard (slots_ok true (opt_list s))
       (kids <~ take_roots (opt_list s) ;;
-       tv <~ lift (h_alloc TLabel (SData d) kids) ;; push_root tv ;;~ ret ODone)
+       tv <~ lift (h_alloc KValue TLabel (SData d) kids) ;; push_root tv ;;~ ret ODone)
 
   | ONewThunk s env =>
     guard (fun st => slots_ok false [s] st && slots_ok true env st && negb (existsb (Nat.eqb s) env))
       (v <~ take_roots [s] ;;
        ts <~ take_roots env ;;
-       m <~ lift (h_alloc TEnvMap (SData 0) ts) ;;
-       tv <~ lift (h_alloc TThunk (SStd Suspended false) (map as_value v ++ [m])) ;;
-       push_root (KThunk, snd tv) ;;~ ret ODone)
+       m <~ lift (h_alloc KRc TEnvMap (SData 0) ts) ;;
+       tv <~ lift (h_alloc KThunk TThunk (SStd Suspended false) (map as_value v ++ [m])) ;;
+       push_root tv ;;~ ret ODone)
 
   | ONewRev s =>
     guard (slots_ok false [s])
       (v <~ take_roots [s] ;;
-       m <~ lift (h_alloc TEnvMap (SData 0) []) ;;
-       rc <~ lift (h_alloc TRcClosure (SData 0) (map as_value v ++ [m])) ;;
-       tv <~ lift (h_alloc TThunk (SRev Suspended false false) [rc]) ;;
-       push_root (KThunk, snd tv) ;;~ ret ODone)
+       m <~ lift (h_alloc KRc TEnvMap (SData 0) []) ;;
+       rc <~ lift (h_alloc KRc TRcClosure (SData 0) (map as_value v ++ [m])) ;;
+       tv <~ lift (h_alloc KThunk TThunk (SRev Suspended false false) [rc]) ;;
+       push_root tv ;;~ ret ODone)
 
   | OClone s =>
-    o <~ peek_root s ;;
-    match o with
-    | None => ret OSkip
-    | Some tv => lift (h_clone1 tv) ;;~ push_root tv ;;~ ret ODone
-    end
+    guard (root_live s) (l <~ clone_root s ;; push_roots l ;;~ ret ODone)
 
   | ODrop s =>
-    o <~ take_root s ;;
-    match o with
-    | None => ret OSkip
-    | Some tv => lift (h_drop [tv]) ;;~ ret ODone
-    end
+    guard (root_live s) (l <~ take_roots [s] ;; lift (h_drop l) ;;~ ret ODone)
 
   | OIntoThunk s =>
-    with_root s (fun tv =>
-      o <- h_read tv ;;
-      match o with
-      | Some b => if tag_eqb (b_tag b) TThunk then hret ((KThunk, snd tv), OBool true)
-                  else hret (tv, OBool false)
-      | None => hret (tv, OBool false)
-      end) OSkip
+    with_root s (fun tv => r <- h_retype_thunk tv ;; hret (fst r, OBool (snd r))) OSkip
 
   | OIntoValue s =>
     with_root s (fun tv => hret (as_value tv, ODone)) OSkip
 
   | OMakeMut s m =>
     guard (mut_guard s m)
-      (x <~ take_roots (opt_list (mut_slot m)) ;;
-       outs <~ with_root s (fun tv =>
-                 tv' <- h_make_unique tv ;;
-                 l <- h_mutate tv' m (hd_error x) ;;
-                 hret (tv', l)) [] ;;
-       push_roots outs ;;~ ret ODone)
+      (fun st =>
+        (x <~ take_roots (opt_list (mut_slot m)) ;;
+         r <~ with_root s (fun tv => h_mutate WCow tv m (map (push_kind (root_tag s st)) x)) (false, x) ;;
+         push_roots (snd r) ;;~ ret ODone) st)
 
   | OContentMut s m =>
     guard (mut_guard s m)
-      (o <~ peek_root s ;;
-       ob <~ lift (match o with Some tv => h_read tv | None => hret None end) ;;
-       match ob with
-       | Some b =>
-         if N.eqb (b_rc b) 1 then
+      (fun st =>
+        (if N.eqb (root_rc s st) 1 then
            x <~ take_roots (opt_list (mut_slot m)) ;;
-           outs <~ with_root s (fun tv => l <- h_mutate tv m (hd_error x) ;; hret (tv, l)) [] ;;
-           push_roots outs ;;~ ret (OBool true)
-         else ret (OBool false)
-       | None => ret OSkip
-       end)
+           r <~ with_root s (fun tv => h_mutate WIfUnique tv m (map (push_kind (root_tag s st)) x)) (false, x) ;;
+           push_roots (snd r) ;;~ ret (OBool true)
+         else ret (OBool false)) st)
 
   | OStrongClone s =>
-    o <~ peek_root s ;;
-    match o with
-    | Some tv => tv' <~ lift (h_strong_clone tv) ;; push_root tv' ;;~ ret ODone
-    | None => ret OSkip
-    end
+    guard (root_live s)
+      (r <~ with_root s (fun tv => tv' <- h_strong_clone tv ;; hret (tv, [tv'])) [] ;;
+       push_roots r ;;~ ret ODone)
 
   | OMakeUnique s =>
     with_root s (fun tv => tv' <- h_make_unique tv ;; hret (tv', ODone)) OSkip
 
   | OLensTake s =>
-    o <~ take_root s ;;
-    match o with
-    | None => ret OSkip
-    | Some tv =>
-      ob <~ lift (h_read tv) ;;
-      match ob with
-      | None => ret ODone                                   (* inline: null / bool / empty container *)
-      | Some b =>
-        match b_tag b with
-        | TThunk => push_root (KThunk, snd tv) ;;~ ret ODone (* thunk_lens: into_thunk_unchecked *)
-        | TArray =>
-          p <~ lift (h_unwrap_or_clone tv) ;;
-          match snd p with
-          | [leaf] =>
-            q <~ lift (h_unwrap_or_clone leaf) ;;            (* Slice::into_iter: Rc::unwrap_or_clone *)
-            push_roots (snd q) ;;~ ret ODone
-          | l => lift (h_drop l) ;;~ ret ODone
-          end
-        | _ =>
-          p <~ lift (h_unwrap_or_clone tv) ;;
-          push_roots (snd p) ;;~ ret ODone
-        end
-      end
-    end
+    guard (root_live s)
+      (l <~ take_roots [s] ;;
+       match l with
+       | [tv] =>
+         ob <~ lift (h_read tv) ;;
+         match ob with
+         | None => ret ODone                                  (* inline: null / bool / empty container *)
+         | Some b =>
+           match b_tag b with
+           | TThunk =>                                        (* thunk_lens: into_thunk_unchecked after the tag match *)
+             r <~ lift (h_retype_thunk tv) ;; push_root (fst r) ;;~ ret ODone
+           | TArray =>
+             p <~ lift (h_take_or_clone tv all_kids) ;;
+             match snd p with
+             | [leaf] =>
+               q <~ lift (h_take_or_clone leaf all_kids) ;;   (* Slice::into_iter: Rc::unwrap_or_clone *)
+               push_roots (snd q) ;;~ ret ODone
+             | l' => lift (h_drop l') ;;~ ret ODone
+             end
+           | _ =>
+             p <~ lift (h_take_or_clone tv all_kids) ;;
+             push_roots (snd p) ;;~ ret ODone
+           end
+         end
+       | l' => lift (h_drop l') ;;~ ret OSkip
+       end)
 
   | OLensRestore s => guard (root_live s) (ret ODone)
 
   | OTGet s =>
-    guard (root_is_thunk s)
-      (o <~ peek_root s ;;
-       match o with
-       | None => ret OSkip
-       | Some tv =>
-         b <~ lift (h_thunk_data tv) ;;
-         match closure_kids (b_shape b) (b_kids b) with
-         | None => ret OPanic                                (* revertible thunk without cached value *)
-         | Some ck =>
-           lift (h_clone_all ck) ;;~
-           push_roots (firstn 1 ck) ;;~
-           lift (h_drop (skipn 1 ck)) ;;~ ret ODone
-         end
-       end)
+    with_thunk s (fun tv b =>
+      match closure_kids (b_shape b) (b_kids b) with
+      | None => hret (OPanic, [])                             (* revertible thunk without cached value *)
+      | Some _ =>
+        p <- h_clone_kids tv closure_sel ;;
+        h_drop (skipn 1 (snd p)) ;;; hret (ODone, firstn 1 (snd p))
+      end)
 
   | OTMkFrame s =>
-    guard (root_is_thunk s)
-      (o <~ peek_root s ;;
-       match o with
-       | None => ret OSkip
-       | Some tv =>
-         b <~ lift (h_thunk_data tv) ;;
-         if tstate_eqb (get_state (b_shape b)) Blackholed then ret (OBool false)
-         else
-           lift (h_write false tv (set_state (b_shape b) Blackholed) (b_kids b)) ;;~
-           lift (h_clone1 tv) ;;~ push_root tv ;;~ ret (OBool true)
-       end)
+    with_thunk s (fun tv b =>
+      if tstate_eqb (get_state (b_shape b)) Blackholed then hret (OBool false, [])
+      else
+        _ <- h_modify WShared tv (fun sh kids => ((set_state sh Blackholed, kids), [])) ;;
+        h_clone1 tv ;;; hret (OBool true, [tv]))
 
   | OTUpdate f c =>
     guard (fun st => root_is_thunk f st && slots_ok false [c] st && negb (Nat.eqb f c))
       (v <~ take_roots [c] ;;
-       fo <~ take_root f ;;
-       match fo with
-       | None => lift (h_drop v) ;;~ ret OSkip
-       | Some ftv =>
-         b <~ lift (h_thunk_data ftv) ;;
-         m <~ lift (h_alloc TEnvMap (SData 0) []) ;;
+       fl <~ take_roots [f] ;;
+       match fl with
+       | [ftv] =>
+         _ <~ lift (h_thunk_data ftv) ;;
+         m <~ lift (h_alloc KRc TEnvMap (SData 0) []) ;;
          let newc := map as_value v ++ [m] in
-         old <~ lift (match b_shape b with
-                      | SStd _ l => h_write false ftv (SStd Evaluated l) newc
-                      | SRev _ l _ =>
-                        old <- h_write false ftv (SRev Evaluated l true) (firstn 1 (b_kids b) ++ newc) ;;
-                        hret (skipn 1 old)
-                      | SData _ => hret newc
-                      end) ;;
-         lift (h_drop old) ;;~
-         lift (h_drop [ftv]) ;;~ ret ODone
+         r <~ lift (h_modify WShared ftv (fun sh kids =>
+                      match sh with
+                      | SStd _ l => ((SStd Evaluated l, newc), kids)
+                      | SRev _ l _ => ((SRev Evaluated l true, firstn 1 kids ++ newc), skipn 1 kids)
+                      | SData _ => ((sh, kids), newc)
+                      end)) ;;
+         lift (h_drop (match snd r with Some rel => rel | None => newc end)) ;;~
+         lift (h_drop [fst r]) ;;~ ret ODone
+       | l => lift (h_drop (v ++ l)) ;;~ ret OSkip
        end)
 
   | OTReset s =>
-    guard (root_is_thunk s)
-      (o <~ peek_root s ;;
-       match o with
-       | None => ret OSkip
-       | Some tv =>
-         b <~ lift (h_thunk_data tv) ;;
-         lift (h_write false tv (set_state (b_shape b) Suspended) (b_kids b)) ;;~ ret ODone
-       end)
+    with_thunk s (fun tv _ =>
+      _ <- h_modify WShared tv (fun sh kids => ((set_state sh Suspended, kids), [])) ;; hret (ODone, []))
 
   | OTLock s =>
-    guard (root_is_thunk s)
-      (o <~ peek_root s ;;
-       match o with
-       | None => ret OSkip
-       | Some tv =>
-         b <~ lift (h_thunk_data tv) ;;
-         if get_locked (b_shape b) then ret (OBool false)
-         else lift (h_write false tv (set_locked (b_shape b) true) (b_kids b)) ;;~ ret (OBool true)
-       end)
+    with_thunk s (fun tv b =>
+      if get_locked (b_shape b) then hret (OBool false, [])
+      else _ <- h_modify WShared tv (fun sh kids => ((set_locked sh true, kids), [])) ;; hret (OBool true, []))
 
   | OTUnlock s =>
-    guard (root_is_thunk s)
-      (o <~ peek_root s ;;
-       match o with
-       | None => ret OSkip
-       | Some tv =>
-         b <~ lift (h_thunk_data tv) ;;
-         lift (h_write false tv (set_locked (b_shape b) false) (b_kids b)) ;;~
-         ret (OBool (get_locked (b_shape b)))
-       end)
+    with_thunk s (fun tv b =>
+      _ <- h_modify WShared tv (fun sh kids => ((set_locked sh false, kids), [])) ;;
+      hret (OBool (get_locked (b_shape b)), []))
 
   | OTRevert s =>
-    guard (root_is_thunk s)
-      (o <~ peek_root s ;;
-       match o with
-       | None => ret OSkip
-       | Some tv =>
-         b <~ lift (h_thunk_data tv) ;;
-         match b_shape b with
-         | SRev _ _ _ =>
-           let orig := firstn 1 (b_kids b) in
-           lift (h_clone_all orig) ;;~
-           tv' <~ lift (h_alloc TThunk (SRev Suspended false false) orig) ;;
-           push_root (KThunk, snd tv') ;;~ ret ODone
-         | _ => lift (h_clone1 tv) ;;~ push_root tv ;;~ ret ODone
-         end
-       end)
+    with_thunk s (fun tv b =>
+      if is_rev (b_shape b) then
+        p <- h_clone_kids tv (fun _ kids => firstn 1 kids) ;;
+        tv' <- h_alloc KThunk TThunk (SRev Suspended false false) (snd p) ;;
+        hret (ODone, [tv'])
+      else h_clone1 tv ;;; hret (ODone, [tv]))
 
   | OTBuildCached s recs =>
     guard (fun st => root_is_thunk s st && slots_ok true recs st)
-      (o <~ peek_root s ;;
-       rs <~ peek_roots recs ;;
-       match o with
-       | None => ret OSkip
-       | Some tv =>
-         b <~ lift (h_thunk_data tv) ;;
-         (* the harness builds rec_env: &[(Ident, Thunk)] from clones of the roots *)
-         lift (h_clone_all rs) ;;~
-         r <~ (match b_shape b, b_kids b with
-               | SRev st l false, [orig] =>
-                 ob <~ lift (h_read orig) ;;
-                 match ob with
-                 | Some obk =>
-                   (* new_cached = Closure::clone(orig) *)
-                   lift (h_clone_all (b_kids obk)) ;;~
-                   (* env.extend(rec_env.iter().cloned()): the layer is shared with orig, so a
-                      new layer is made from the clones and the old (empty) one is released *)
-                   lift (h_clone_all rs) ;;~
-                   m <~ lift (h_alloc TEnvMap (SData 0) rs) ;;
-                   lift (h_drop (skipn 1 (b_kids obk))) ;;~
-                   lift (h_write false tv (SRev st l true) (orig :: firstn 1 (b_kids obk) ++ [m])) ;;~
-                   ret ODone
-                 | None => ret ODone
-                 end
-               | SRev _ _ true, _ => ret OPanic              (* assert!(cached.is_none()) *)
-               | _, _ => ret ODone
-               end) ;;
-         lift (h_drop rs) ;;~ ret r
-       end)
+      ((* the harness builds rec_env: &[(Ident, Thunk)] from clones of the roots *)
+       rs <~ clone_roots recs ;;
+       r <~ with_root s (fun tv =>
+              b <- h_thunk_data tv ;;
+              match b_shape b with
+              | SRev _ _ false =>
+                (* new_cached = Closure::clone(orig) *)
+                q <- h_clone_grandkids tv ;;
+                (* env.extend(rec_env.iter().cloned()): the layer is shared with orig, so a new
+                   layer is made from the clones and the old (empty) one is released *)
+                h_clone_all rs ;;;
+                m <- h_alloc KRc TEnvMap (SData 0) rs ;;
+                h_drop (skipn 1 q) ;;;
+                r <- h_modify WShared tv (fun sh kids =>
+                       match sh with
+                       | SRev st l false => ((SRev st l true, kids ++ firstn 1 q ++ [m]), [])
+                       | _ => ((sh, kids), firstn 1 q ++ [m])
+                       end) ;;
+                h_drop (match snd r with Some rel => rel | None => firstn 1 q ++ [m] end) ;;;
+                hret (tv, ODone)
+              | SRev _ _ true => hret (tv, OPanic)            (* assert!(cached.is_none()) *)
+              | _ => hret (tv, ODone)
+              end) OSkip ;;
+       lift (h_drop rs) ;;~ ret r)
 
   | OTIntoClosure s =>
     guard (root_is_thunk s)
-      (o <~ take_root s ;;
-       match o with
-       | None => ret OSkip
-       | Some tv =>
-         b <~ lift (h_thunk_data tv) ;;
-         if N.eqb (b_rc b) 1 then
-           kids <~ lift (h_free_shallow tv) ;;
-           match closure_kids (b_shape b) kids with
+      (l <~ take_roots [s] ;;
+       match l with
+       | [tv] =>
+         _ <~ lift (h_thunk_data tv) ;;
+         p <~ lift (h_take_or_clone tv closure_sel) ;;
+         let sh := fst (fst p) in
+         let kids := snd p in
+         if snd (fst p) then
+           (* unique: the whole ThunkData is owned *)
+           match closure_kids sh kids with
            | Some ck =>
              push_roots (firstn 1 ck) ;;~
-             lift (h_drop (skipn 1 ck)) ;;~
-             lift (h_drop (match b_shape b with SRev _ _ _ => firstn 1 kids | _ => [] end)) ;;~ ret ODone
+             lift (h_drop (skipn 1 ck ++ (if is_rev sh then firstn 1 kids else []))) ;;~ ret ODone
            | None => lift (h_drop kids) ;;~ ret OPanic
            end
          else
-           match closure_kids (b_shape b) (b_kids b) with
-           | Some ck =>
-             lift (h_clone_all ck) ;;~
-             lift (h_drop [tv]) ;;~
-             push_roots (firstn 1 ck) ;;~
-             lift (h_drop (skipn 1 ck)) ;;~ ret ODone
-           | None => lift (h_drop [tv]) ;;~ ret OPanic
+           match closure_kids sh kids with
+           | Some _ => push_roots (firstn 1 kids) ;;~ lift (h_drop (skipn 1 kids)) ;;~ ret ODone
+           | None => lift (h_drop kids) ;;~ ret OPanic
            end
+       | l' => lift (h_drop l') ;;~ ret OSkip
        end)
 
   | OTSaturate s =>
     guard (root_is_thunk s)
-      (o <~ take_root s ;;
-       match o with
-       | None => ret OSkip
-       | Some tv =>
+      (l <~ take_roots [s] ;;
+       match l with
+       | [tv] =>
          _ <~ lift (h_thunk_data tv) ;;
-         p <~ lift (h_unwrap_or_clone tv) ;;
-         match fst p with
-         | SRev _ _ _ =>
+         p <~ lift (h_take_or_clone tv all_kids) ;;
+         let sh := fst (fst p) in
+         if is_rev sh then
            (* Rc::try_unwrap(orig).unwrap_or_else(clone); cached and deps are dropped *)
            match snd p with
            | orig :: cached =>
-             q <~ lift (h_unwrap_or_clone orig) ;;
+             q <~ lift (h_take_or_clone orig all_kids) ;;
              lift (h_drop cached) ;;~
-             tv' <~ lift (h_alloc TThunk (SStd Suspended false) (snd q)) ;;
+             tv' <~ lift (h_alloc KValue TThunk (SStd Suspended false) (snd q)) ;;
              push_root tv' ;;~ ret ODone
            | [] => ret ODone
            end
-         | sh =>
-           tv' <~ lift (h_alloc TThunk sh (snd p)) ;;
+         else
+           tv' <~ lift (h_alloc KValue TThunk sh (snd p)) ;;
            push_root tv' ;;~ ret ODone
-         end
+       | l' => lift (h_drop l') ;;~ ret OSkip
        end)
 
   | OTMap s =>
-    guard (root_is_thunk s)
-      (o <~ peek_root s ;;
-       match o with
-       | None => ret OSkip
-       | Some tv =>
-         b <~ lift (h_thunk_data tv) ;;
-         match b_shape b, b_kids b with
-         | SRev st _ c, orig :: cached =>
-           ob <~ lift (h_read orig) ;;
-           match ob with
-           | Some obk =>
-             lift (h_clone_all (b_kids obk)) ;;~
-             rc <~ lift (h_alloc TRcClosure (SData 0) (b_kids obk)) ;;
-             lift (h_clone_all cached) ;;~
-             tv' <~ lift (h_alloc TThunk (SRev st false c) (rc :: cached)) ;;
-             push_root (KThunk, snd tv') ;;~ ret ODone
-           | None => ret ODone
-           end
-         | sh, kids =>
-           lift (h_clone_all kids) ;;~
-           tv' <~ lift (h_alloc TThunk (set_locked sh false) kids) ;;
-           push_root (KThunk, snd tv') ;;~ ret ODone
-         end
-       end)
+    with_thunk s (fun tv b =>
+      if is_rev (b_shape b) then
+        q <- h_clone_grandkids tv ;;
+        rc <- h_alloc KRc TRcClosure (SData 0) q ;;
+        p <- h_clone_kids tv (fun _ kids => tl kids) ;;
+        tv' <- h_alloc KThunk TThunk (match fst p with SRev st _ c => SRev st false c | sh => sh end) (rc :: snd p) ;;
+        hret (ODone, [tv'])
+      else
+        p <- h_clone_kids tv all_kids ;;
+        tv' <- h_alloc KThunk TThunk (set_locked (fst p) false) (snd p) ;;
+        hret (ODone, [tv']))
   end.
 
 (* a history: the run stops at the first error / overflow *)
